@@ -291,7 +291,7 @@ fn make_inputs(model: &Model) -> Result<Vec<(NodeId, Value)>, &'static str> {
         };
         let n = u128_product(&shape).ok_or("input shape overflows")?;
         total += n;
-        if n > 4096 || total > 16384 {
+        if n > 4096 || total > 16384 || shape.iter().any(|d| *d > 4096) || shape.len() > 8 {
             return Err("declared input too large to materialise");
         }
         let n = n as usize;
